@@ -1,5 +1,6 @@
 /- C20: the cache theorems of the file processor without links (Properties/C16.lean) and with links
-   (Properties/C20Links.lean) audited together -/
+   (Properties/C20Links.lean) and the theorems about write_files (Properties/C20Write.lean) audited together -/
 import ProphyModel.Properties.C16
 import ProphyModel.Properties.C20Links
 import ProphyModel.Properties.TablesTexts
+import ProphyModel.Properties.C20Write
